@@ -1,11 +1,13 @@
 """C12 — degree/size requests resolve to the smallest supported grid not below."""
 import importlib
 import inspect
+import json
 import warnings
 
 import numpy as np
 
-from ..common import SRC, Ctx, Tokens, driver_batch
+from ..common import SRC, Ctx, Tokens, b2f, driver_batch, f2b
+from . import c12_ext as ext
 
 LEVEL = "proof"
 LEVEL_TEXT = (
@@ -19,11 +21,18 @@ LEVEL_TEXT = (
     "generated definitions (equal to the hand model on all well-formed inputs; guards reject everything else; the file name "
     "built for a resolved pair is in the regenerated directory listing and no loader guard fires; the cache key is sound). "
     "The generated functions are the executable model compared with the implementation on every integer request "
-    "(exhaustive in the thorough tier)."
+    "(exhaustive in the thorough tier). Round 3: every statement of __init__ (cache lookup / fill under cache=, the .copy() and "
+    "weights * 4 * np.pi branches, the negative-weights test, self._degree / self._method), the loader after np.load (broadcast of a "
+    "single weight) and the executed warnings.warn calls are generated too (generic in the number type); proved over that text: the "
+    "grid that is built (degree, points of the existing file, one weight per point, scaling) does not depend on cache= nor on what "
+    "earlier constructions left in the cache dictionaries (invariant: every entry is a loader result; true of a fresh interpreter), "
+    "rejected requests are rejected before any cache or file is looked at. These definitions run in the driver at Float and are "
+    "compared bit for bit with the implementation's weights, and as whole histories with fresh interpreters."
 )
 TECHNIQUE = "Lean 4 proof (generic bisect/resolution theorems, AST-translated decision logic, kernel-decided regenerated tables and directory listing) + exhaustive correspondence"
 GEN = ["angular_tables", "angular_logic"]
-LEAN_MODULES = ["GridVerif.Props.C12", "GridVerif.Props.C12.Listing", "GridVerif.Props.C12.Logic"]
+LEAN_MODULES = ["GridVerif.Props.C12", "GridVerif.Props.C12.Listing", "GridVerif.Props.C12.Logic", "GridVerif.Props.C12.Full",
+                "GridVerif.Props.C12.FullDemo"]
 THEOREMS = [
     "GridVerif.C12.bisect_left_least_index",
     "GridVerif.C12.resolve_spec",
@@ -54,6 +63,17 @@ THEOREMS = [
     "GridVerif.C12.gen_init_degree_request",
     "GridVerif.C12.gen_init_size_request",
     "GridVerif.C12.gen_cache_key_sound",
+    # round 3: over the full generated text of __init__, the loader after np.load and the warning logs
+    "GridVerif.C12.gen_warnings_body_eq",
+    "GridVerif.C12.gen_warnings_of_ok",
+    "GridVerif.C12.gen_loader_data",
+    "GridVerif.C12.gen_loader_data_shape",
+    "GridVerif.C12.gen_initFull_unfold",
+    "GridVerif.C12.gen_init_full",
+    "GridVerif.C12.gen_init_independent_of_cache",
+    "GridVerif.C12.gen_init_full_reject",
+    "GridVerif.C12.gen_init_full_unknown_method",
+    "GridVerif.C12.demoLoad_ok",
 ]
 RULE = (
     "correspondence: every integer degree 0..max+2 of each of the 4 methods (always) and every size "
@@ -67,7 +87,16 @@ RULE = (
     "unchanged, output must be a fresh integer array); AngularGrid constructions as one history (cache on/off, "
     "degree/size/both, any spelling of the method, largest degree and size of every method, repeated and interleaved), "
     "each compared with the generated __init__ selection: degree, size, cache entry, and the points of the very file "
-    "the model names; AtomGrid(...).degrees for degrees= and sizes="
+    "the model names; AtomGrid(...).degrees for degrees= and sizes=. Round 3: constructions on the arrays of the named file through the "
+    "generated full constructor and loader tail (weights bit for bit, warnings with category / message / attributed frame, cache entry, "
+    "a second build = cache hit; all Lebedev grids with negative weights, single-weight files, degree / size / both, cache on / off / default); "
+    "histories that START in a fresh interpreter (subprocess) with a non-default option (cache=False first, size= first, other spelling, "
+    "rejected request first, loader / converter / _get_degree_and_size / AtomGrid first), edit the grid / array they were handed in place and "
+    "build again, read the accessors in every order, alternate cache=True/False and two methods on one degree — each step compared with the "
+    "generated constructor run as one history from empty caches (degree, method, points of the named file, weights, warnings, keys of the four "
+    "cache dictionaries after every step), and the same histories continuing this process's state; oracle: AtomGrid(degrees=/sizes=), "
+    "AtomGrid.from_pruned / from_preset with every method over the method's whole range (beyond 131 for the non-Lebedev ones) incl. requests "
+    "above the maximum, MolGrid.from_size / from_pruned / from_preset (Lebedev only: these routes have no method argument) incl. requests above 131 / 5810"
 )
 TRUSTED_BASE = [
     "Lean 4.33 kernel; axioms propext, Classical.choice, Quot.sound only (audited per theorem)",
@@ -75,6 +104,8 @@ TRUSTED_BASE = [
     "translator harness/translate/angular_logic.py (AST -> Gen/AngularLogic.lean; raises on syntax it cannot carry; also lists the data packages named by the loader)",
     "Model/AngularPy.lean: meaning of bisect_left, dict lookup / in, max, list[i], np.unique, np.zeros, a[np.where(m)] = v, isinstance(x, int | np.integer), comparisons, f-string fields (hand-written primitives; the bisect loop / dict / max are those of Model/Bisect.lean)",
     "harness classification of a Python argument as none / integer (int, bool, np.integer) / other, mirroring isinstance(x, int | np.integer)",
+    "Model/AngularNp.lean: meaning of data['points'] / data['weights'], np.ones, a*b / a/b with NumPy broadcasting of a one-element array, a*x, a<x, np.any, x.copy() (value-wise), the cache dictionaries (in / [] / []=), Grid.__init__'s length check, warnings.warn(message, category, stacklevel)",
+    "hypothesis FsOk of the round-3 theorems: np.load of a listed file returns as many points as its name says and one weight per point or a single one (the header facts regenerated into Gen/AngularTables.lean and decided in tables_ok)",
 ]
 ASSUMPTIONS = [
     "np.load returns the arrays stored in the file; file naming method_degree_size.npz",
@@ -140,7 +171,9 @@ def _values(ctx, ang, m):
             ks[-1], ks[-1] + 1, ctx.rng.randrange(0, ks[-1])]
     vals = [None, True, False, np.True_, np.bool_(False), -1, -ctx.rng.randrange(1, 50), np.int64(-3), np.int8(-1), 2 ** 70,
             2.5, 5.0, float(ctx.rng.choice(ds)), np.float64(7.0), np.float32(3.0), "7", b"7", np.array(5), np.array([5]),
-            [5], (5,), 5 + 0j, float("nan"), float("inf")]
+            [5], (5,), 5 + 0j, float("nan"), float("inf"),
+            # extreme but well-formed integers (class 8): far above every table, at the edges of the machine integer types
+            10 ** 12, 2 ** 63 - 1, 2 ** 64, 10 ** 30, np.int64(2 ** 62), np.uint64(2 ** 64 - 1), np.int64(-2 ** 63), -10 ** 20]
     for i in ints:
         vals += [i, _npint(ctx, i)]
     return vals
@@ -383,6 +416,390 @@ def _corr_atomgrid(ctx: Ctx, ang):
                      witness={"method": m, "kind": kind, "request": seq, "impl": got, "model": want})
 
 
+
+# ================================================================================================
+# round 3
+# ================================================================================================
+def _direct(f, *a, **k):
+    """Call f from a frame of its own file name; -> (result | exception, [[category, message, attributed to the caller]])."""
+    ext.exec_steps([])          # makes sure the executor is loaded
+    return ext._NS["_call"](f, *a, **k)
+
+
+def _warn_tokens(ans_tokens):
+    """`n cat:level:depth:message …` of a driver answer -> [[category, message, attributed to the direct caller]]."""
+    n = int(ans_tokens[0])
+    out = []
+    for t in ans_tokens[1:1 + n]:
+        cat, lvl, depth, msg = t.split(":", 3)
+        out.append([cat, msg.replace("_", " "), int(lvl) == int(depth) + 2])
+    return out, ans_tokens[1 + n:]
+
+
+def _wnorm(ws):
+    return [[c, m.replace("_", " "), bool(d)] for c, m, d in ws]
+
+
+def _bits(a):
+    return np.ascontiguousarray(np.asarray(a, dtype=float)).view(np.uint64)
+
+
+def _numeric_cases(ctx, ang):
+    """(method spelling, degree, size, cache): requests whose grid has at most ~1500 points — every Lebedev grid with
+    negative weights (13, 25, 27: warning), the Ahrens-Beylkin one (no warning), single-weight files (spherical),
+    full-weight files, degree and size route, cache on / off / default, other spellings."""
+    cases = [("lebedev", 13, None, True), ("Lebedev", 25, None, False), ("lebedev", None, 266, None), ("ahrens_beylkin", 39, None, False),
+             ("LEBEDEV", 12, 3, None), ("spherical", 0, None, False), ("maxdet", None, 1, True)]
+    for m in METHODS:
+        npts = getattr(ang, PREFIX[m] + "_NPOINTS")
+        small = [k for k in sorted(npts) if k <= 1500]
+        for _ in range(ctx.n(3, 30)):
+            k = ctx.rng.choice(small)
+            sp = ctx.rng.choice([m, m.upper(), m.title()])
+            c = ctx.rng.choice([True, False, None])
+            if ctx.rng.random() < 0.5:
+                cases.append((sp, max(0, npts[k] - ctx.rng.randrange(0, 2)), None, c))
+            else:
+                cases.append((sp, ctx.rng.choice([None, 5]), max(0, k - ctx.rng.randrange(0, 3)), c))
+    if ctx.thorough:
+        cases += [("lebedev", 131, None, False), ("spherical", None, 5000, True)]
+    return cases
+
+
+def _corr_numeric(ctx: Ctx, ang):
+    """Part B: the generated numeric definitions against the implementation, bit for bit — the loader after np.load
+    (`loadPrecomputedAngularGrid_data`) and the whole constructor (`initFull`: weights, warnings, number of cache
+    entries in a fresh state) on the arrays of the very file the model names; the warnings of `_get_degree_and_size`;
+    the default of `cache=`."""
+    A = ang.AngularGrid
+    dflt = inspect.signature(A.__init__).parameters
+    cdef = driver_batch(["C12.cachedefault"])[0]
+    ctx.count(["cache-default"], nontrivial=False, tag="numeric:cache-default")
+    if cdef != f"ok {1 if dflt['cache'].default is True else 0}":
+        ctx.fail("corr", "init:cache-default", f"default of cache= is {dflt['cache'].default!r}, generated model says {cdef}",
+                 witness={"impl": repr(dflt['cache'].default), "model": cdef})
+    cases = _numeric_cases(ctx, ang)
+    sel = driver_batch([f"C12.init {sp} {_tok(dflt['degree'].default if d is None and sz is not None else d)} {_tok(sz)}" for sp, d, sz, c in cases])
+    jobs = []
+    for (sp, d, sz, c), ans in zip(cases, sel):
+        if not ans.startswith("ok"):
+            continue
+        _, md, ms, _, _, pkg, fname = ans.split()
+        f = SRC.joinpath(*pkg.split(".")[1:]) / fname
+        with np.load(f) as z:
+            fp, fw = np.array(z["points"]), np.array(z["weights"], dtype=float)
+        jobs.append((sp, d, sz, c, int(md), int(ms), fp, fw))
+    lines = []
+    for sp, d, sz, c, md, ms, fp, fw in jobs:
+        cflag = 1 if (c if c is not None else dflt["cache"].default) else 0
+        dtok = _tok(dflt['degree'].default if d is None and sz is not None else d)
+        lines.append(f"C12.build {sp} {dtok} {_tok(sz)} {cflag} {len(fp)} " + " ".join([str(len(fw))] + [f2b(x) for x in fw]))
+        lines.append(f"C12.tail {len(fp)} " + " ".join([str(len(fw))] + [f2b(x) for x in fw]))
+    ans = iter(driver_batch(lines))
+    for sp, d, sz, c, md, ms, fp, fw in jobs:
+        build, tail = next(ans).split(), next(ans).split()
+        kw = {"method": sp}
+        if d is not None:
+            kw["degree"] = d
+        if sz is not None:
+            kw["size"] = sz
+        if c is not None:
+            kw["cache"] = c
+        getattr(ang, PREFIX[sp.lower()] + "_CACHE").pop(md, None)     # the model runs in a fresh state: make it a miss here too
+        g, ws = _direct(A, **kw)
+        ctx.count(["numeric", sp, repr(d), repr(sz), c], nontrivial=True, tag="numeric:init:" + ("single-weight" if len(fw) == 1 else "neg-weights" if (fw < 0).any() else "plain"))
+        key = f"init:{sp.lower()}:numeric"
+        wit = {"method": sp, "degree": repr(d), "size": repr(sz), "cache": c, "degree_token": _tok(d), "size_token": _tok(sz), "style": "both" if d is not None and sz is not None else "size" if sz is not None else "deg-kw"}
+        if isinstance(g, Exception) or build[0] != "ok":
+            ctx.fail("corr", key, f"AngularGrid({kw}): implementation {g!r}, generated initFull {' '.join(build[:3])}", witness=wit)
+            continue
+        mdeg, mmeth, mnp, mncache = build[1], build[2], int(build[3]), int(build[4])
+        mwarn, rest = _warn_tokens(build[5:])
+        mw = np.array([int(x) for x in rest[1:]], dtype=np.uint64)
+        problems = []
+        if (str(int(g.degree)), g.method, len(g.points)) != (mdeg, mmeth, mnp):
+            problems.append(f"(degree, method, points) = {(int(g.degree), g.method, len(g.points))}, model {(mdeg, mmeth, mnp)}")
+        if not np.array_equal(g.points, fp):
+            problems.append("points are not those of the file the model names")
+        if len(g.weights) != len(mw) or not np.array_equal(_bits(g.weights), mw):
+            k = next((i for i in range(min(len(mw), len(g.weights))) if _bits(g.weights)[i] != mw[i]), None)
+            problems.append(f"weights differ from the generated `initFull` (first at index {k}: {g.weights[k] if k is not None else len(g.weights)} vs {b2f(str(mw[k])) if k is not None else len(mw)})")
+        if _wnorm(ws) != mwarn:
+            problems.append(f"warnings {ws}, model {mwarn}")
+        in_cache = md in getattr(ang, PREFIX[sp.lower()] + "_CACHE")
+        if in_cache != (mncache == 1):
+            problems.append(f"cache entry for degree {md} present: {in_cache}, model: {mncache} entries after a construction in a fresh state")
+        if problems:
+            ctx.fail("corr", key, f"AngularGrid({kw}) with the cache entry cleared first: " + "; ".join(problems), witness=wit)
+            continue
+        g2, ws2 = _direct(A, **kw)       # again: a cache hit when the first construction stored its arrays
+        ctx.count(["numeric-again", sp, repr(d), repr(sz), c], nontrivial=True, tag="numeric:init:" + ("hit" if in_cache else "miss-again"))
+        if isinstance(g2, Exception) or not np.array_equal(g2.points, fp) or not np.array_equal(_bits(g2.weights), mw) or _wnorm(ws2) != mwarn or int(g2.degree) != int(mdeg):
+            ctx.fail("corr", key, f"AngularGrid({kw}) built a second time ({'cache hit' if in_cache else 'not cached'}): degree / points / weights / warnings differ from the first build and from the generated `initFull`", witness=wit)
+        # the loader on its own
+        out, _ = _direct(A._load_precomputed_angular_grid, md, ms, sp.lower())
+        ctx.count(["numeric-load", sp.lower(), md, ms], nontrivial=len(fw) == 1, tag="numeric:load")
+        tw = np.array([int(x) for x in tail[3:]], dtype=np.uint64) if tail[0] == "ok" else None
+        if isinstance(out, Exception) or tw is None or not np.array_equal(out[0], fp) or len(out[1]) != len(tw) or not np.array_equal(_bits(out[1]), tw):
+            ctx.fail("corr", f"load:{sp.lower()}:numeric", f"_load_precomputed_angular_grid({md}, {ms}, {sp.lower()!r}): "
+                     + (repr(out) if isinstance(out, Exception) else f"{len(out[0])} points / weights {np.asarray(out[1])[:3]}…") + f", generated loader tail: {' '.join(tail[:3])} …",
+                     witness={"method": sp.lower(), "degree": md, "size": ms})
+    # warnings of _get_degree_and_size
+    cases = []
+    for m in METHODS + ["gauss"]:
+        for d, sz in [(5, 7), (0, 7), (5, 0), (None, 7), (5, None), (np.int64(3), True), (7.5, 3), (-1, 4), (10 ** 6, 3), (3, 10 ** 9)]:
+            cases.append((m, d, sz))
+    model = driver_batch([f"C12.gdsw {m} {_tok(d)} {_tok(sz)}" for m, d, sz in cases])
+    for (m, d, sz), a in zip(cases, model):
+        out, ws = _direct(A._get_degree_and_size, d, sz, m)
+        ctx.count(["gdsw", m, repr(d), repr(sz)], nontrivial=d is not None and sz is not None, tag="numeric:gds-warnings")
+        want = _warn_tokens(a.split()[1:])[0] if a.startswith("ok") else None
+        got = None if isinstance(out, Exception) else _wnorm(ws)
+        if got != want:
+            ctx.fail("corr", f"gds:{m}:warnings", f"_get_degree_and_size({d!r}, {sz!r}, {m!r}): warnings {ws if got is not None else repr(out)}, generated model {a}",
+                     witness={"method": m, "degree": repr(d), "size": repr(sz), "degree_token": _tok(d), "size_token": _tok(sz)})
+
+
+# ---- fresh-interpreter scenarios -------------------------------------------------------------------
+def _scenarios(ctx: Ctx, ang, n):
+    """Histories that *start* in a fresh interpreter with a non-default option (class 11), edit what they were
+    handed (class 9) and use accessors / options in alternating order (class 10)."""
+    out = []
+    orders = [["degree", "size", "method", "points", "weights"], ["size", "degree"], ["weights", "points", "size", "method", "degree"], ["method", "size", "degree", "size"]]
+    for i in range(n):
+        m = METHODS[i % 4] if i < 8 else ctx.rng.choice(METHODS)
+        npts = getattr(ang, PREFIX[m] + "_NPOINTS")
+        small = [k for k in sorted(npts) if k <= 700]
+        k = ctx.rng.choice(small)
+        d, sz = npts[k], k
+        dreq, sreq = max(0, d - ctx.rng.randrange(0, 2)), max(0, k - ctx.rng.randrange(0, 3))
+        sp = ctx.rng.choice([m, m.upper(), m.capitalize()])
+        m2 = ctx.rng.choice([x for x in METHODS if x != m])
+        openers = [
+            {"op": "init", "degree": dreq, "cache": False, "method": sp},
+            {"op": "init", "size": sreq, "cache": False, "method": sp},
+            {"op": "init", "degree": dreq, "size": sreq, "cache": False, "method": sp},
+            {"op": "init", "degree": dreq, "positional": True, "cache": False, "method": sp},
+            {"op": "init", "size": sreq, "method": sp},
+            {"op": "init", "degree": max(npts.values()) + 1, "cache": False, "method": sp},
+            {"op": "init", "degree": dreq, "cache": False, "method": m + "x"},
+            {"op": "init"} if m == "lebedev" else {"op": "init", "cache": False, "method": sp},
+            {"op": "load", "degree": d, "size": sz, "method": m},
+            {"op": "convert", "sizes": [sreq, 0, sreq], "method": m, "container": ctx.rng.choice(["array", "list", "tuple"])},
+            {"op": "gds", "degree": dreq, "size": sreq, "method": m},
+            {"op": "atomgrid", "kind": "size", "seq": [sreq, max(0, sreq - 7)], "rpoints": [0.3, 1.1], "method": m},
+            {"op": "atomgrid", "kind": "deg", "seq": [dreq, 0, dreq], "rpoints": [0.3, 1.1, 2.0], "method": sp, "container": "array"},
+        ]
+        steps = [openers[i % len(openers)] if i < 2 * len(openers) else ctx.rng.choice(openers)]
+        pool = [
+            {"op": "init", "degree": dreq, "cache": True, "method": m},
+            {"op": "init", "degree": dreq, "cache": False, "method": m},
+            {"op": "init", "size": sreq, "cache": ctx.rng.choice([True, False]), "method": sp},
+            {"op": "init", "degree": dreq, "method": m2, "cache": ctx.rng.choice([True, False])} if dreq <= max(getattr(ang, PREFIX[m2] + "_NPOINTS").values()) else {"op": "init", "degree": 3, "method": m2},
+            {"op": "edit", "what": "grid"},
+            {"op": "attrs", "order": ctx.rng.choice(orders)},
+            {"op": "convert", "sizes": [sreq, 1, sreq + 1], "method": ctx.rng.choice([m, m2])},
+            {"op": "edit", "what": "converted"},
+            {"op": "atomgrid", "kind": ctx.rng.choice(["deg", "size"]), "seq": [3, 5], "rpoints": [0.5, 1.5], "method": m},
+        ]
+        for _ in range(ctx.rng.randrange(4, 8)):
+            steps.append(ctx.rng.choice(pool))
+        steps += [{"op": "init", "degree": dreq, "cache": False, "method": m}, {"op": "attrs", "order": ctx.rng.choice(orders)}]
+        out.append(json.loads(json.dumps(steps)))
+    return out
+
+
+def _expand(ang, st, dflt, convert):
+    """The constructor calls a step makes, as the model sees them: [(method, degree token, size token, cache)]."""
+    if st["op"] == "init":
+        d = st["degree"] if "degree" in st else dflt["degree"]
+        return [(st.get("method", dflt["method"]), _tok(d), _tok(st.get("size", dflt["size"])), st.get("cache", dflt["cache"]))]
+    if st["op"] == "atomgrid":
+        m = st.get("method", "lebedev")
+        degs = st["seq"] if st["kind"] == "deg" else convert(m, st["seq"])
+        if degs is None:
+            return None
+        return [(m.lower(), _tok(int(x)), "none", dflt["cache"]) for x in degs]
+    return []
+
+
+def _model_history(ang, scenarios):
+    """Run every scenario through the generated `initFull` (driver op C12.hist, empty caches at the start).
+    -> per scenario, per step: list of per-call answers (token lists) or None when a step is not modelled."""
+    A = ang.AngularGrid
+    par = inspect.signature(A.__init__).parameters
+    dflt = {"degree": par["degree"].default, "size": par["size"].default, "method": par["method"].default,
+            "cache": driver_batch(["C12.cachedefault"])[0] == "ok 1"}
+    conv_keys = sorted({(st.get("method", "lebedev"), tuple(st["seq"])) for sc in scenarios for st in sc if st["op"] == "atomgrid" and st["kind"] == "size"})
+    conv_ans = dict(zip(conv_keys, driver_batch([f"C12.convert {m} {len(q)} " + " ".join(map(str, q)) for m, q in conv_keys])))
+
+    def convert(m, seq):
+        a = conv_ans[(m, tuple(seq))]
+        return [int(x) for x in a.split()[2:]] if a.startswith("ok") else None
+    lines, shapes = [], []
+    for sc in scenarios:
+        calls, shape = [], []
+        for st in sc:
+            ex = _expand(ang, st, dflt, convert)
+            shape.append(None if ex is None else len(ex))
+            calls += ex or []
+        lines.append("C12.hist " + " ".join(f"{m} {d} {s} {1 if c else 0}" for m, d, s, c in calls) if calls else None)
+        shapes.append(shape)
+    answers = iter(driver_batch([l for l in lines if l is not None]))
+    out = []
+    for sc, line, shape in zip(scenarios, lines, shapes):
+        per_call = [a.split() for a in next(answers).split(" | ")] if line is not None else []
+        it = iter(per_call)
+        out.append([None if k is None else [next(it) for _ in range(k)] for k in shape])
+    return out
+
+
+def _parse_hist(tokens):
+    """`ok d method pkg/file n name:key:file… w warns…` -> dict; an error tag -> {'error': tag}."""
+    if tokens[0] != "ok":
+        return {"error": tokens[0]}
+    d, meth, f = int(tokens[1]), tokens[2], tokens[3]
+    n = int(tokens[4])
+    caches = {c: [] for c in ext.CACHE_NAMES}
+    for t in tokens[5:5 + n]:
+        name, key, _ = t.split(":", 2)
+        caches[name].append(int(key))
+    warns, _ = _warn_tokens(tokens[5 + n:])
+    pkg, fname = f.split("/")
+    return {"degree": d, "method": meth, "pkg": pkg, "file": fname, "caches": {c: sorted(v) for c, v in caches.items()}, "warnings": warns}
+
+
+_FSHA = {}
+
+
+def _file_sha(pkg, fname):
+    if (pkg, fname) not in _FSHA:
+        pts = _file_points(pkg, fname)
+        _FSHA[(pkg, fname)] = (None, 0) if pts is None else (ext.sha(pts), len(pts))
+    return _FSHA[(pkg, fname)]
+
+
+ERRTAG = {"ValueError": "value-error", "TypeError": "type-error", "IndexError": "index-error", "KeyError": "key-error",
+          "FileNotFoundError": "os-error", "OSError": "os-error"}
+
+
+def _check_weights(ctx: Ctx, ang, pending, dflt):
+    """Weights and warnings of constructions made inside histories (cache hit or miss, fresh interpreter or not)
+    against the generated `initFull` run on the arrays of the file the model names."""
+    lines, todo = [], []
+    for where, steps, st, o, c in pending:
+        pts = _file_points(c["pkg"], c["file"])
+        with np.load(SRC.joinpath(*c["pkg"].split(".")[1:]) / c["file"]) as z:
+            fw = np.array(z["weights"], dtype=float)
+        d = st["degree"] if "degree" in st else dflt["degree"]
+        lines.append(f"C12.build {st.get('method', dflt['method'])} {_tok(d)} {_tok(st.get('size', dflt['size']))} 0 {len(pts)} "
+                     + " ".join([str(len(fw))] + [f2b(x) for x in fw]))
+        todo.append((where, steps, st, o))
+    for (where, steps, st, o), a in zip(todo, driver_batch(lines)):
+        t = a.split()
+        ctx.count([where, "weights", st], nontrivial=True, tag=f"{where}:weights")
+        if t[0] != "ok":
+            ctx.fail("corr", f"{where}:weights", f"{where}, {st}: generated constructor on the named file: {a[:80]}", witness={"steps": steps, "where": where})
+            continue
+        mwarn, rest = _warn_tokens(t[5:])
+        mw = np.array([int(x) for x in rest[1:]], dtype=np.uint64)
+        got = np.frombuffer(bytes.fromhex(o["weights"]), dtype=np.uint64)
+        if len(got) != len(mw) or not np.array_equal(got, mw) or o["warnings"] != mwarn:
+            k = next((i for i in range(min(len(mw), len(got))) if got[i] != mw[i]), None)
+            ctx.fail("corr", f"{where}:weights:{st.get('method', 'lebedev').lower()}", f"{where}, last step of {steps[-3:]}: weights / warnings differ from the generated `initFull` on the same file "
+                     f"(first weight differing: index {k}; warnings {o['warnings']} vs {mwarn})", witness={"steps": steps, "where": where, "step": len(steps) - 1})
+
+
+def _compare_history(ctx: Ctx, ang, steps, obs, model, where, base=None, pending=None):
+    """One executed history against the generated constructor run on the same calls. `base`: cache keys that were
+    present before the history (in-process histories); None for a fresh interpreter."""
+    prev_caches = {c: [] for c in ext.CACHE_NAMES}
+    last_model = None
+    for i, (st, o, mo) in enumerate(zip(steps, obs, model)):
+        if "crash" in o:
+            ctx.fail("corr", f"fresh:crash", f"{where}: the interpreter running the history crashed: {o['crash'][-300:]}", witness={"steps": steps})
+            return
+        tag = f"{where}:{st['op']}" + (":first" if i == 0 else "")
+        ctx.count([where, i, st], nontrivial=True, tag=tag)
+        wit = {"steps": steps[:i + 1], "step": i, "observed": {k: v for k, v in o.items() if k != "weights"}, "where": where}
+        key = f"{where}:{st['op']}:{st.get('method', 'lebedev').lower()}"
+        if mo is None:
+            prev_caches = None
+            continue
+        calls = [_parse_hist(t) for t in mo]
+        if st["op"] == "init":
+            c = calls[0]
+            if "error" in c or "error" in o:
+                if ERRTAG.get(o.get("error"), o.get("error")) != c.get("error"):
+                    ctx.fail("corr", key, f"{where}, step {i} {st}: implementation {o.get('error', 'returns a grid')}, generated constructor {c.get('error', 'returns a grid')}", witness=wit)
+                    return
+            else:
+                fsha, fn = _file_sha(c["pkg"], c["file"])
+                bad = []
+                if (o["degree"], o["method"], o["npoints"], o["nweights"], o["size"]) != (c["degree"], c["method"], fn, fn, fn):
+                    bad.append(f"(degree, method, points, weights, size) = {(o['degree'], o['method'], o['npoints'], o['nweights'], o['size'])}, model {(c['degree'], c['method'], fn, fn, fn)}")
+                if o["points"] != fsha:
+                    bad.append(f"its points are not those of {c['file']}")
+                # (the history model loads token files: the data-dependent negative-weights warning is compared, together
+                # with the weights themselves, by `_check_weights` on the real arrays)
+                if [w for w in o["warnings"] if w[0] != "UserWarning"] != c["warnings"]:
+                    bad.append(f"warnings {o['warnings']}, model {c['warnings']}")
+                if bad:
+                    ctx.fail("corr", key, f"{where}, step {i} {st}: " + "; ".join(bad), witness=wit)
+                    return
+                if "weights" in o and pending is not None:
+                    pending.append((where, steps[:i + 1], st, o, c))
+            last_model = None if ("error" in c or "error" in o) else (c["degree"], c["method"], _file_sha(c["pkg"], c["file"])[1])
+        elif st["op"] == "attrs" and last_model is not None and o.get("values") is not None:
+            exp = {"degree": last_model[0], "method": last_model[1], "size": last_model[2], "points": last_model[2], "weights": last_model[2]}
+            if [[a, exp[a]] for a in st["order"]] != o["values"]:
+                ctx.fail("corr", f"{where}:attrs", f"{where}, step {i}: accessors {st['order']} of the grid built last give {o['values']}, generated constructor {[[a, exp[a]] for a in st['order']]}", witness=wit)
+                return
+        elif st["op"] == "atomgrid":
+            if "error" in o or any("error" in c for c in calls):
+                merr = next((c["error"] for c in calls if "error" in c), None)
+                if ERRTAG.get(o.get("error"), o.get("error")) != merr:
+                    ctx.fail("corr", key, f"{where}, step {i} {st}: implementation {o.get('error', 'returns')}, model {merr or 'returns'}", witness=wit)
+                    return
+            else:
+                want_d = [c["degree"] for c in calls]
+                want_s = [_file_sha(c["pkg"], c["file"])[1] for c in calls]
+                if o["degrees"] != want_d or o["shells"] != want_s:
+                    ctx.fail("corr", key, f"{where}, step {i} {st}: shell degrees {o['degrees']} / sizes {o['shells']}, generated constructor per shell {want_d} / {want_s}", witness=wit)
+                    return
+        good = [c for c in calls if "caches" in c]
+        if good:
+            prev_caches = good[-1]["caches"]
+        if prev_caches is not None:
+            want_c = prev_caches if base is None else {c: sorted(set(v) | set(base[c])) for c, v in prev_caches.items()}
+            if o["caches"] != want_c:
+                ctx.fail("corr", f"{where}:caches:{st.get('method', 'lebedev').lower()}", f"{where}, after step {i} {st}: cache dictionaries hold {o['caches']}, generated constructor: {want_c}", witness=wit)
+                return
+
+
+def _corr_fresh(ctx: Ctx, ang):
+    """Classes 9 / 10 / 11 against the generated constructor: every scenario runs in its own interpreter."""
+    pending = []
+    scen = _scenarios(ctx, ang, ctx.n(13, 80))
+    obs = ext.run_scenarios(scen)
+    model = _model_history(ang, scen)
+    for sc, ob, mo in zip(scen, obs, model):
+        if len(ob) != len(sc):
+            ctx.fail("corr", "fresh:crash", f"fresh interpreter: the history did not run to its end: {str(ob)[-300:]}", witness={"steps": sc})
+            continue
+        _compare_history(ctx, ang, sc, ob, mo, "fresh", pending=pending)
+    # the same kind of history continuing the state of this process (cache dictionaries already populated)
+    scen = _scenarios(ctx, ang, ctx.n(4, 30))
+    base = {c: sorted(int(k) for k in getattr(ang, c)) for c in ext.CACHE_NAMES}
+    model = _model_history(ang, scen)
+    for sc, mo in zip(scen, model):
+        base = {c: sorted(int(k) for k in getattr(ang, c)) for c in ext.CACHE_NAMES}
+        ob = ext.exec_steps(sc)
+        _compare_history(ctx, ang, sc, ob, mo, "inproc", base=base, pending=pending)
+    par = inspect.signature(ang.AngularGrid.__init__).parameters
+    _check_weights(ctx, ang, pending, {"degree": par["degree"].default, "size": par["size"].default, "method": par["method"].default})
+
+
 def _requests(ctx: Ctx, ang, full: bool):
     """-> list of (method, kind, n)"""
     reqs = []
@@ -477,6 +894,8 @@ def corr(ctx: Ctx):
     _corr_containers(ctx, ang, pool)
     _corr_constructions(ctx, ang)
     _corr_atomgrid(ctx, ang)
+    _corr_numeric(ctx, ang)
+    _corr_fresh(ctx, ang)
     ctx.traces += 1
 
 
@@ -677,6 +1096,231 @@ def _oracle_atomgrid(ctx: Ctx, ang, n):
                                       "assert [int(x) for x in g.degrees] == [w[0]] * 3 and [int(g.indices[i+1]-g.indices[i]) for i in range(3)] == [w[1]] * 3, ([int(x) for x in g.degrees], w)\n"))
 
 
+
+# ---- round 3, oracle side: the property itself on histories and on every consumer route ----------------
+def _shell_want(ang, m, kind, req):
+    """per requested degree/size: (degree, size) of the smallest supported grid not below, or None."""
+    return [ext.want(ang, m, kind, int(x)) for x in req]
+
+
+def _oracle_steps(ctx: Ctx, ang, steps, obs, where):
+    """Brute-force check of every observation of one history. -> False at the first violation."""
+    par = inspect.signature(ang.AngularGrid.__init__).parameters
+    last = None
+
+    def fail(i, key, what, exp):
+        chk = (f"i, exp = {i}, json.loads({json.dumps(exp)!r})\n"
+               "got = {k: obs[i].get(k) for k in exp}\n"
+               f"assert got == exp, 'step %d %r: observed %r, the resolution rule gives %r' % (i, steps[i], got, exp)\n")
+        ctx.fail("oracle", key, f"{where}, step {i} of {len(steps)} ({steps[i]}) after {steps[:i][-4:]}: {what}",
+                 witness={"steps": steps[:i + 1], "expected": exp, "observed": {k: v for k, v in obs[i].items() if k != 'weights'}},
+                 snippet=ext.snippet(steps[:i + 1], chk))
+        return False
+    for i, (st, o) in enumerate(zip(steps, obs)):
+        if "crash" in o:
+            ctx.fail("oracle", f"angular:{where}:crash", f"{where}: history did not run: {o['crash'][-200:]}", witness={"steps": steps})
+            return False
+        op = st["op"]
+        m = st.get("method", "lebedev" if op != "init" else par["method"].default).lower()
+        ctx.count([where, "oracle", i, st], nontrivial=True, tag=f"oracle:{where}:{op}")
+        if op == "init":
+            d = st["degree"] if "degree" in st else par["degree"].default
+            sz = st.get("size", par["size"].default)
+            if m not in METHODS:
+                if o.get("error") != "ValueError":
+                    return fail(i, f"angular:{m}:built", f"unknown method accepted: {o}", {"error": "ValueError"})
+                continue
+            kind, n = ("size", sz) if sz is not None else ("deg", d)
+            w = ext.want(ang, m, kind, n)
+            if w is None:
+                if o.get("error") != "ValueError":
+                    return fail(i, f"angular:{m}:built", f"request {kind}={n} above the maximum was not rejected: {o.get('degree')}/{o.get('size')}", {"error": "ValueError"})
+                continue
+            fa = ext.file_arrays(m, w[0], w[1])
+            if fa is None:
+                ctx.fail("oracle", f"angular:{m}:{w[0]}_{w[1]}:file", f"{m}: no single data file for degree {w[0]} with {w[1]} points", witness={"method": m, "degree": w[0], "size": w[1]})
+                return False
+            exp = {"degree": w[0], "size": w[1], "method": m, "npoints": w[1], "nweights": w[1], "points": ext.sha(fa[0])}
+            got = {k: o.get(k) for k in exp}
+            if got != exp:
+                what = (f"built {got.get('degree')}/{got.get('size')} with {got.get('npoints')} points" if "error" not in o else f"raised {o['error']}: {o.get('msg')}")
+                if got.get("points") != exp["points"] and all(got.get(k) == exp[k] for k in exp if k != "points"):
+                    what = "reports the right degree and size but its points are not those of the data file"
+                return fail(i, f"angular:{m}:built", f"{what}; smallest supported grid not below {kind}={n} is degree {w[0]} / size {w[1]} ({'fresh interpreter' if where == 'fresh' else 'in-process history'})", exp)
+            if "weights" in o:
+                gw = np.frombuffer(bytes.fromhex(o["weights"]), dtype=float)
+                rw = ext.reference_weights(m, fa[1], w[1])
+                if not np.allclose(gw, rw, rtol=1e-13, atol=0):
+                    k = int(np.argmax(np.abs(gw - rw)))
+                    chk = ("from grid import angular as ang\n"
+                           f"i = {i}\nimport numpy as np\nw = np.frombuffer(bytes.fromhex(obs[i]['weights']), dtype=float)\n"
+                           f"z = np.load({str(next((SRC / 'data' / DIRS[m]).glob(f'*_{w[0]}_{w[1]}.npz')))!r})\n"
+                           f"s = z['weights'] if len(z['weights']) > 1 else np.full({w[1]}, z['weights'][0])\n"
+                           f"ref = s * {4 * np.pi if m in ('lebedev', 'spherical') else 1.0!r}\n"
+                           "assert np.allclose(w, ref, rtol=1e-13, atol=0), 'weights of the built grid are not those of its data file: max deviation %g' % np.abs(w - ref).max()\n")
+                    ctx.fail("oracle", f"angular:{m}:built:weights", f"{where}, step {i} ({st}) after {steps[:i][-4:]}: the grid has the points of {m}_{w[0]}_{w[1]}.npz but not its weights (index {k}: {gw[k]} vs {rw[k]})",
+                             witness={"steps": steps[:i + 1]}, snippet=ext.snippet(steps[:i + 1], chk))
+                    return False
+            last = exp
+        elif op == "attrs" and last is not None and o.get("values") is not None:
+            vals = {"degree": last["degree"], "size": last["size"], "method": last["method"], "points": last["size"], "weights": last["size"]}
+            exp = {"values": [[a, vals[a]] for a in st["order"]]}
+            if o.get("values") != exp["values"]:
+                return fail(i, f"angular:{last['method']}:built:attrs", f"accessors in the order {st['order']} give {o.get('values')}", exp)
+        elif op == "gds" and m in METHODS:
+            d, sz = st["degree"], st["size"]
+            kind, n = ("deg", d) if d is not None else ("size", sz)
+            w = ext.want(ang, m, kind, n)
+            exp = {"error": "ValueError"} if w is None else {"degree": w[0], "size": w[1]}
+            if {k: o.get(k) for k in exp} != exp:
+                return fail(i, f"angular:{m}:{kind}", f"_get_degree_and_size answers {o}", exp)
+        elif op == "load" and m in METHODS:
+            fa = ext.file_arrays(m, st["degree"], st["size"])
+            exp = {"points": ext.sha(fa[0]), "npoints": len(fa[0])}
+            if {k: o.get(k) for k in exp} != exp:
+                return fail(i, f"angular:{m}:load", f"the loader returns {o.get('npoints')} points that are not those of the file", exp)
+        elif op == "convert" and m in METHODS:
+            ws = _shell_want(ang, m, "size", st["sizes"])
+            exp = {"error": "ValueError"} if any(w is None for w in ws) else {"degrees": [w[0] for w in ws]}
+            if {k: o.get(k) for k in exp} != exp:
+                return fail(i, f"angular:{m}:convert", f"convert_angular_sizes_to_degrees gives {o.get('degrees', o.get('error'))}", exp)
+        elif op in ("atomgrid", "pruned", "preset") and m in METHODS:
+            if op == "atomgrid":
+                req, kind = st["seq"], st["kind"]
+            elif op == "pruned":
+                req, kind = [st["seq"][st["sector"]]] * len(st["rpoints"]), st["kind"]
+            else:
+                req, kind = st["request"], "size"
+            ws = _shell_want(ang, m, kind, req)
+            also = _shell_want(ang, m, kind, st["seq"]) if op == "pruned" else []     # every sector request is converted
+            exp = {"error": "ValueError"} if any(w is None for w in ws + also) else {"degrees": [w[0] for w in ws], "shells": [w[1] for w in ws]}
+            if {k: o.get(k) for k in exp} != exp:
+                return fail(i, f"angular:{m}:atomgrid" + ("" if op == "atomgrid" else ":from_" + op), f"{op}: shell degrees {o.get('degrees', o.get('error'))} / sizes {o.get('shells')}; requested per shell ({kind}) {req}", exp)
+        elif op in ("molsize", "molpruned", "molpreset"):
+            nat = len(st["atnums"])
+            if op == "molsize":
+                reqs, kind = [[st["size"]] * len(st["rpoints"])] * nat, "size"
+                also = []
+            elif op == "molpruned":
+                seqs = st["seq"]
+                reqs, kind = [[q[st["sector"]]] * len(st["rpoints"]) for q in seqs], st["kind"]
+                also = [x for q in seqs for x in q]
+            else:
+                reqs, kind, also = [st["request"]] * nat, "size", []
+            ws = [_shell_want(ang, "lebedev", kind, r) for r in reqs]
+            bad = any(w is None for a in ws for w in a) or any(w is None for w in _shell_want(ang, "lebedev", kind, also))
+            exp = {"error": "ValueError"} if bad else {"atoms": [{"degrees": [w[0] for w in a], "shells": [w[1] for w in a], "size": sum(w[1] for w in a)} for a in ws]}
+            if {k: o.get(k) for k in exp} != exp:
+                got = o.get("error") or [(a["degrees"], a["shells"]) for a in o.get("atoms", [])]
+                if "error" in exp:
+                    got = f"a grid was built {got}: a request above the Lebedev maximum (among {sorted(set(also) | {x for r in reqs for x in r})}) was not rejected"
+                return fail(i, f"angular:lebedev:molgrid:{op[3:]}", f"MolGrid.from_{op[3:]}: per atom (degrees, shell sizes) {got}; requested per shell ({kind}) {reqs}", exp)
+    return True
+
+
+def _consumer_steps(ctx: Ctx, ang, n):
+    """Every consumer route of the rule, every method where the route has one, over the whole range of the method
+    (beyond the Lebedev maximum for the other three), including requests above the maximum (must be rejected)."""
+    steps = []
+    presets = sorted(p.name[len("prune_grid_"):-4] for p in (SRC / "data" / "prune_grid").glob("prune_grid_*.npz"))
+    for m in METHODS:
+        npts = getattr(ang, PREFIX[m] + "_NPOINTS")
+        dmax, smax = max(npts.values()), max(npts)
+        for _ in range(n):
+            # AtomGrid(degrees= / sizes=)
+            kind = ctx.rng.choice(["deg", "size"])
+            top = dmax if kind == "deg" else min(smax, 3000)
+            seq = [ctx.rng.choice([ctx.rng.randrange(0, top + 1), ctx.rng.randrange(0, 60), top]) for _ in range(ctx.rng.randrange(1, 4))]
+            if ctx.rng.random() < 0.25:
+                seq[ctx.rng.randrange(len(seq))] = (dmax if kind == "deg" else smax) + ctx.rng.randrange(1, 4)
+            # (the sizes route hands the method to the converter as it is spelled: only the documented lower-case names there)
+            steps.append({"op": "atomgrid", "kind": kind, "seq": seq, "rpoints": [0.4 * (j + 1) for j in range(len(seq))], "method": ctx.rng.choice([m, m.upper()]) if kind == "deg" else m,
+                          "container": ctx.rng.choice(["list", "array"])})
+            # AtomGrid.from_pruned: all shells in one sector (bounds far away), the other sector's request anything
+            kind = ctx.rng.choice(["deg", "size"])
+            top = dmax if kind == "deg" else min(smax, 6000)
+            req = [ctx.rng.randrange(0, top + 1), ctx.rng.choice([ctx.rng.randrange(0, 40), ctx.rng.randrange(max(0, top - 30), top + 1)])]
+            if ctx.rng.random() < 0.3:
+                req[ctx.rng.randrange(2)] = (dmax if kind == "deg" else smax) + ctx.rng.randrange(1, 3)
+            sector = ctx.rng.randrange(2)
+            steps.append({"op": "pruned", "kind": kind, "seq": req, "sector": sector, "radius": 1.0, "r_sectors": [[1e9], [1e-9]][sector],
+                          "rpoints": [0.3, 0.9, 2.2], "method": m})
+            # AtomGrid.from_preset: one preset tabulated as counts of shells, sg_1 (both branches), one tabulated as radii
+            for pz in (ctx.rng.choice([p for p in presets if p in ext.LIST_PRESETS]), "sg_1", ctx.rng.choice([p for p in presets if p not in ext.LIST_PRESETS])):
+                z = ctx.rng.choice(ext.preset_atnums(pz))
+                rp, req = ext.preset_case(ctx.rng, pz, z)
+                steps.append({"op": "preset", "preset": pz, "atnum": z, "rpoints": rp, "request": req, "method": m})
+    lmax_d, lmax_s = max(ang.LEBEDEV_NPOINTS.values()), max(ang.LEBEDEV_NPOINTS)
+    coords = [[0.0, 0.0, 0.0], [0.0, 0.0, 1.4], [1.1, 0.3, -0.2]]
+    for _ in range(max(1, n // 2)):
+        nat = ctx.rng.randrange(1, 4)
+        zs = [ctx.rng.choice([1, 6, 8, 16]) for _ in range(nat)]
+        size = ctx.rng.choice([ctx.rng.randrange(0, 700), ctx.rng.randrange(0, lmax_s + 1), lmax_s, lmax_s + 1, ctx.rng.randrange(lmax_s + 1, 60000)])
+        steps.append({"op": "molsize", "atnums": zs, "atcoords": coords[:nat], "size": size, "rpoints": [0.5, 1.5]})
+        kind = ctx.rng.choice(["deg", "size"])
+        top = lmax_d if kind == "deg" else 1500
+        seq = [[ctx.rng.randrange(0, top + 1), ctx.rng.choice([ctx.rng.randrange(0, top + 1), top + ctx.rng.randrange(1, 200) if ctx.rng.random() < 0.3 else top])] for _ in range(nat)]
+        sector = ctx.rng.randrange(2)
+        steps.append({"op": "molpruned", "atnums": zs, "atcoords": coords[:nat], "kind": kind, "seq": seq, "sector": sector,
+                      "radius": [1.0] * nat, "r_sectors": [[[1e9], [1e-9]][sector]] * nat, "rpoints": [0.5, 1.5]})
+        # (the scalar form of d_sectors — MolGrid.from_pruned's own default 50 — raises TypeError "len() of unsized object" on
+        # the pinned tree for every value: no grid is built, nothing for this property to judge; reported to the lead, not generated)
+        pz = ctx.rng.choice(presets)
+        z = ctx.rng.choice(ext.preset_atnums(pz))
+        rp, req = ext.preset_case(ctx.rng, pz, z)
+        steps.append({"op": "molpreset", "atnums": [z] * nat, "atcoords": coords[:nat], "preset": pz, "rpoints": rp, "request": req})
+    # always there, whatever the budget: a request above the maximum on every route (in the sector that is used and in the
+    # one that is not), the largest supported request, and zero
+    for m in METHODS:
+        npts = getattr(ang, PREFIX[m] + "_NPOINTS")
+        dmax, smax = max(npts.values()), max(npts)
+        up = ctx.rng.randrange(1, 60)
+        steps.append({"op": "atomgrid", "kind": "deg", "seq": [dmax + up, 3], "rpoints": [0.4, 0.8], "method": m})
+        steps.append({"op": "atomgrid", "kind": "size", "seq": [3, smax + up], "rpoints": [0.4, 0.8], "method": m})
+        for sector in (0, 1):
+            steps.append({"op": "pruned", "kind": "deg", "seq": [dmax + up, ctx.rng.randrange(0, 30)], "sector": sector, "radius": 1.0,
+                          "r_sectors": [[1e9], [1e-9]][sector], "rpoints": [0.3, 0.9], "method": m})
+            steps.append({"op": "pruned", "kind": "size", "seq": [ctx.rng.randrange(0, 30), smax + up], "sector": sector, "radius": 1.0,
+                          "r_sectors": [[1e9], [1e-9]][sector], "rpoints": [0.3, 0.9], "method": m})
+        steps.append({"op": "pruned", "kind": "deg", "seq": [dmax, 0], "sector": ctx.rng.randrange(2), "radius": 1.0, "r_sectors": [0.5], "rpoints": [0.3, 0.9], "method": m})
+        steps[-1]["sector"] = 0
+        steps[-1]["r_sectors"] = [1e9]
+    two = {"atnums": [1, 8], "atcoords": coords[:2], "rpoints": [0.5, 1.5]}
+    up = ctx.rng.randrange(1, 190)
+    steps.append({"op": "molsize", **two, "size": lmax_s + up})
+    steps.append({"op": "molsize", **two, "size": 0})
+    for sector in (0, 1):
+        steps.append({"op": "molpruned", **two, "kind": "deg", "seq": [[3, 5], [lmax_d + up, 7]][::1 if sector == 0 else -1], "sector": sector,
+                      "radius": [1.0, 1.0], "r_sectors": [[[1e9], [1e-9]][sector]] * 2})
+        steps.append({"op": "molpruned", **two, "kind": "deg", "seq": [[7, lmax_d + up], [3, 5]], "sector": sector,
+                      "radius": [1.0, 1.0], "r_sectors": [[[1e9], [1e-9]][sector]] * 2})
+        steps.append({"op": "molpruned", **two, "kind": "size", "seq": [[6, 27], [lmax_s + up, 6]], "sector": sector,
+                      "radius": [1.0, 1.0], "r_sectors": [[[1e9], [1e-9]][sector]] * 2})
+    steps.append({"op": "molpruned", **two, "kind": "deg", "seq": [[lmax_d, 0], [0, lmax_d]], "sector": 0, "radius": [1.0, 1.0], "r_sectors": [[1e9]] * 2})
+    ctx.rng.shuffle(steps)
+    return json.loads(json.dumps(steps))
+
+
+def _oracle_round3(ctx: Ctx, ang, budget):
+    big = budget == "large" or ctx.thorough
+    # fresh interpreters: first call with a non-default option, handed-out objects edited, accessors in any order
+    scen = _scenarios(ctx, ang, 26 if big else 5)
+    cons = _consumer_steps(ctx, ang, 6 if big else 1)
+    # a consumer route as the very first thing a fresh interpreter does, then the plain constructor without cache
+    for st in cons[:8 if big else 3]:
+        m = st.get("method", "lebedev").lower()
+        scen.append([st, {"op": "init", "degree": 3, "cache": False, "method": m}, {"op": "attrs", "order": ["size", "degree"]}])
+    for sc, ob in zip(scen, ext.run_scenarios(scen)):
+        if len(ob) != len(sc):
+            ctx.fail("oracle", "angular:fresh:crash", f"fresh interpreter: history did not run to its end: {str(ob)[-300:]}", witness={"steps": sc})
+            continue
+        if not _oracle_steps(ctx, ang, sc, ob, "fresh"):
+            return
+    # every consumer route, as one history in this process
+    obs = ext.exec_steps(cons)
+    _oracle_steps(ctx, ang, cons, obs, "inproc")
+
+
 def oracle_at(ctx: Ctx, failure):
     """Evaluate the property itself at an input on which model and implementation disagreed."""
     ang = importlib.import_module("grid.angular")
@@ -702,9 +1346,29 @@ def oracle_at(ctx: Ctx, failure):
             _oracle_convert(ctx, ang, m, seq)
     elif key.startswith("init:") and "other" not in (w.get("degree_token"), w.get("size_token")) and "style" in w:
         step = (w["method"], w["style"], num(w["degree_token"]), num(w["size_token"]), bool(w["cache"]))
-        _check_built(ctx, ang, step, [])
+        if _check_built(ctx, ang, step, []) and key.endswith(":numeric"):
+            # degree / size / points are right: look at the weights too, twice (miss, then hit), in a fresh interpreter
+            st = {"op": "init", "method": w["method"]}
+            if num(w["degree_token"]) is not None:
+                st["degree"] = num(w["degree_token"])
+            if num(w["size_token"]) is not None:
+                st["size"] = num(w["size_token"])
+            if w.get("cache") is not None:
+                st["cache"] = bool(w["cache"])
+            steps = [st, dict(st), {"op": "attrs", "order": ["size", "degree", "method"]}]
+            obs = ext.run_scenarios([steps])[0]
+            if len(obs) == len(steps):
+                _oracle_steps(ctx, ang, steps, obs, "fresh")
     elif key.startswith("atomgrid:"):
         _oracle_atomgrid(ctx, ang, 6)
+    elif key.startswith(("fresh:", "inproc:")) and isinstance(w.get("steps"), list):
+        steps = w["steps"]
+        if key.startswith("fresh:"):
+            obs = ext.run_scenarios([steps])[0]
+            if len(obs) == len(steps):
+                _oracle_steps(ctx, ang, steps, obs, "fresh")
+        else:
+            _oracle_steps(ctx, ang, steps, ext.exec_steps(steps), "inproc")
 
 
 def _oracle_request(ctx: Ctx, ang, m, k, n):
@@ -813,6 +1477,8 @@ def oracle(ctx: Ctx, budget: str):
         done.append(step)
     # AtomGrid(...).degrees: no shell coarser than asked for
     _oracle_atomgrid(ctx, ang, 1 if budget == "small" else 8)
+    # round 3: fresh interpreters, edited hand-outs, accessor orders, every consumer route
+    _oracle_round3(ctx, ang, budget)
     # converter element-wise, as a history of calls with a shared pool of sizes across methods
     pool = set()
     for m in METHODS:
